@@ -15,6 +15,7 @@ ID = "C04"
 LEVEL = "exploration"
 
 STR_ALPHABET = ["a", " ", "\n", "'", '"', "\\", "n"]
+OTHER_SPACE = ["\t", "\u00a0", "\u3000", "\r", "\x0b", "\x0c", "\x1c", "\x85", "\u2028", "\u2029", "\ufeff", "\u200b"]
 CONTEXTS = ["arg1", "arg2", "depth2", "depth3", "menu", "casetext", "lang1", "lang2", "ssbs", "ssbs_lang"]
 
 
@@ -211,7 +212,9 @@ def classify(v):
     d = v["detail"]
     if v["kind"].startswith("print-parse") and d.get("kind") == "str":
         s = d["value"]
-        unsafe_single = re.search(r"\\([n'\"]|$)", s) is not None
+        if "\r" in s:
+            return "C04-carriage-return"
+        unsafe_single = re.search(r"\\([n'\"]|$)|\f", s) is not None
         lines = s.split("\n")
         unsafe_multi = all(ln.startswith(" ") for ln in lines) or ("'''" in s and '"""' in s)
         if unsafe_single and unsafe_multi:
@@ -293,6 +296,13 @@ def run(tier, seed):
         for s in strings_upto(3 if quick else 4, extra_atoms=("'''", '"""')):
             if "'''" in s or '"""' in s:
                 yield ("rt", "str", s), ("str", s)
+        # other white space and line separator characters (each with a, blank and newline)
+        for w in OTHER_SPACE:
+            for n in range(1, (4 if quick else 5) + 1):
+                for combo in itertools.product(("a", "\n", " ", w), repeat=n):
+                    if w in combo:
+                        s = "".join(combo)
+                        yield ("rt", "str", s), ("str", s)
         for i in (INTS_QUICK if quick else range(-32768, 32768, 1 if not quick else 97)):
             yield ("rt", "int", i), ("int", i)
         for k in range(-16384, 16384, 1 if not quick else 7):
